@@ -74,6 +74,14 @@ CLAIMED.update({
                 design='§6 C08', note=NOTE_COMMON + ' Theorems over the reals (positive values).'),
 })
 
+CLAIMED.update({
+    'C14': dict(level='proof', technique='Lean 4 theorems for the two report shapes (Shift-by-idle columns / Skip-by-idle axis) from alignment + per-report oracle on the real Report column channels',
+                text='Column count = date count is derived in Lean from the alignment of the indicator stream at exactly idle (C02), the action count law (C05) and the normalisation/outcome length laws (C08), '
+                     'for both report shapes, with the MACD report instantiated and the APO column proved one too long as-is. Every report (32 base, 12 compound/decorated) is run in Go: the date channel and all '
+                     'private column channels are drained by independent readers and compared for counts and row contents (close, annotation of the normalised action, outcome, indicator value of the same date).',
+                design='§6 C14', note=NOTE_COMMON + ' Proof-partial: only the MACD and APO reports are instantiated in Lean, the others rest on the generic shape theorems + the Go oracle. text/template rendering is trusted.'),
+})
+
 PENDING = {}
 
 def main():
